@@ -673,6 +673,9 @@ func (ft *FuncTr) appendBuiltin(st *State, at *Term, in ssa.Instruction, c *ssa.
 			Eq(Select(after, SlcElemAddr(res, jq)), Select(before, SlcElemAddr(s, jq)))), []*Term{SlcElemAddr(res, jq)}, []*Term{SlcElemAddr(s, jq)}))
 		ft.assume(at, Forall([]Bound{{"aj", SInt}}, Implies(And(Le(IntLit(0), jq), Lt(jq, SlcLen(add))),
 			Eq(Select(after, SlcElemAddr(res, Add(SlcLen(s), jq))), Select(before, SlcElemAddr(add, jq)))), []*Term{SlcElemAddr(add, jq)}))
+		// the same fact indexed by the position in the result (trigger on the result's element)
+		ft.assume(at, Forall([]Bound{{"aj", SInt}}, Implies(And(Le(SlcLen(s), jq), Lt(jq, n)),
+			Eq(Select(after, SlcElemAddr(res, jq)), Select(before, SlcElemAddr(add, Sub(jq, SlcLen(s)))))), []*Term{SlcElemAddr(res, jq)}))
 		if ef := ft.h.elemsFrame(before, after, tac); ef != nil {
 			ft.assume(at, ef)
 		}
